@@ -347,7 +347,7 @@ def idxmaxmin_combine(x, fn=None, skipna=True):
     if len(x) <= 1:
         return x
     return (
-        x.groupby(level=0)
+        x.groupby(level=0, sort=False)  # keep the order of the columns
         .apply(idxmaxmin_row, fn=fn, skipna=skipna)
         .reset_index(level=1, drop=True)
     )
